@@ -73,8 +73,7 @@ def r2_off_means_off(R) -> None:
         f = Fn(R, q)
         for n in f.nodes_with(lambda x: is_self_call(x, 'trace_t')):
             n_calls += 1
-            g = [(text(a), truth) for (a, truth, _t) in f.guard_atoms(n.id)]
-            R.check(('trace', True) in g, q, f'trace-guard:{stmt_key(n.ast)[:40]}', 'tracing happens only when `trace` is truthy',
+            R.check(f.xholds(n.id, 'trace'), q, f'trace-guard:{stmt_key(n.ast)[:40]}', 'tracing happens only when `trace` is truthy',
                     f'`{n.label()[:50]}` is not guarded by `if trace:` (a trace would be written with tracing off)', where=f.where(n))
     R.expect(T, n_calls, 5, 'trace_t call sites in the wrappers')
 
